@@ -36,8 +36,9 @@ def check_from_hash(cx):
     if fn is None:
         return
     P = Prov(fn, cx.F); cn = Canon(fn, P)
-    rets = [(b, i, st) for b, i, st in fn.stmts() if st['k'] == 'assign' and st['lhs']['l'] == 0 and not st['lhs']['p']]
-    r = cn.c(norm(P.rvalue(rets[0][2]['rv'], rets[0][0], rets[0][1], 0))) if len(rets) == 1 else ''
+    from .. import rules_i as _I
+    rets = [v for _, v in _I.returns(fn, cx.F)]       # through tail calls and whole-value moves as well
+    r = rets[0] if len(rets) == 1 else ''
     cx.add('F-HTR', 'plus-one', r.startswith('mod_n_add(') and r.endswith(', SM9_ONE)'), 'result = (Ha mod (N-1)) + 1 computed as mod_n_add(x, 1)', fn.loc())
     cx.add('F-HTR', 'modulus', 'SM9_N_MINUS_ONE)' in r and 'SM9_U256_N_MINUS_ONE_BARRETT_MU' in r and 'u256_sub(' in r,
            'x = low256(Ha) - q*(N-1) with q estimated through the Barrett constant of N-1', fn.loc())
@@ -54,6 +55,12 @@ def check_from_hash(cx):
         if st['k'] == 'assign' and st['lhs']['p'] and isinstance(st['lhs']['p'][-1], dict) and 'idx' in st['lhs']['p'][-1]:
             ie = cn.c(norm(P.local(st['lhs']['p'][-1]['idx'], b, i)))
             if ie == 'SubWithOverflow(4, each(Range::Range{0, 5})).0' and 'getu64' in cn.c(norm(P.rvalue(st['rv'], b, i, 0))):
+                st_ok = True
+        elif st['k'] == 'assign' and st['lhs']['p'] == ['deref']:
+            # `*limb = getu64(..)` with limb the element of z.iter_mut().rev().enumerate(): the same store in index form
+            tgt = cn.c(norm(P.local(st['lhs']['l'], b, i)))
+            v = cn.c(norm(P.rvalue(st['rv'], b, i, 0)))
+            if tgt.endswith('[SubWithOverflow(4, each(Range::Range{0, 5})).0]') and v == 'getu64(index($ha, RangeFrom::RangeFrom{MulWithOverflow(8, each(Range::Range{0, 5})).0}))':
                 st_ok = True
     cx.add('F-HTR', 'order', st_ok, 'word i is stored at limb 4-i (most significant word first)', fn.loc())
     g = cx.fn('gm_sm9::fields::getu64', 'F-HTR')
